@@ -192,6 +192,12 @@ class RemoteServer():
                         os.kill(child.pid, signal.SIGTERM)
                 except:
                     logger.exception('Exception occurred while killing a remote child:')
+                    # e.g. a second stop request landed in the middle of the call above: the child must not survive us
+                    try:
+                        if child.is_alive():
+                            os.kill(child.pid, signal.SIGTERM)
+                    except Exception:
+                        pass
 
             self.children.clear()
             self.contexts.clear()
